@@ -16,6 +16,7 @@ import (
 
 	admissionv1 "k8s.io/api/admission/v1"
 	extv1 "k8s.io/apiextensions-apiserver/pkg/apis/apiextensions/v1"
+	metav1 "k8s.io/apimachinery/pkg/apis/meta/v1"
 
 	v1 "github.com/crossplane/crossplane/apis/apiextensions/v1"
 	"github.com/crossplane/crossplane/internal/verifshim/vmap"
@@ -507,8 +508,21 @@ func updateBody(r *explore.Run, rep *report.R) {
 	ni := r.Free(len(variants), "new XRD variant")
 	oi := r.Free(len(variants), "old XRD variant")
 	crdsExist := r.Bool("CRDs of the old XRD exist")
+	// The XRD's own life cycle: live; being deleted (held by its finalizers);
+	// being deleted with this update removing one finalizer.
+	life := r.Free(3, "XRD life cycle")
 	old, new := buildVariant(oi), buildVariant(ni)
-	r.Logf("UPDATE %s -> %s (CRDs exist: %v)", variants[oi].name, variants[ni].name, crdsExist)
+	if life > 0 {
+		now := metav1.Now()
+		for _, x := range []*v1.CompositeResourceDefinition{old, new} {
+			x.SetDeletionTimestamp(&now)
+			x.SetFinalizers([]string{"defined.apiextensions.crossplane.io", "offered.apiextensions.crossplane.io"})
+		}
+		if life == 2 {
+			new.SetFinalizers([]string{"defined.apiextensions.crossplane.io"})
+		}
+	}
+	r.Logf("UPDATE %s -> %s (CRDs exist: %v, life cycle %d)", variants[oi].name, variants[ni].name, crdsExist, life)
 	forbidden := immutableChanges(old, new)
 	collision, other := xrdProblems(new, variants[ni].name)
 	permitted := onlyPermittedChanges(old, new) && collision == "" && len(other) == 0
@@ -566,7 +580,7 @@ func updateBody(r *explore.Run, rep *report.R) {
 	}
 	nt := ""
 	if len(forbidden) > 0 || collision != "" {
-		nt = report.Hash("update", variants[oi].name, variants[ni].name, crdsExist)
+		nt = report.Hash("update", variants[oi].name, variants[ni].name, crdsExist, life)
 	}
 	rep.Eval("admission/update", report.Hash("update", sortedKeys(got), v.Allowed, forbidden, collision, other, permitted), nt)
 	if nt != "" && oi == 0 && sampled["update"] < 1 && rep.WantSample() {
